@@ -3,6 +3,7 @@
     GoChannel/Reg.v (Layer B: Publish / Subscribe / teardown / Close and their locks). *)
 From WM Require Import Base.Prelude Message.Model GoChannel.Sub GoChannel.SubProofs
                        GoChannel.Reg GoChannel.RegWitness GoChannel.RegLocks GoChannel.RegInv GoChannel.RegSend.
+From WM Require GoChannel.Monitor GoChannel.MonitorSound.
 
 (** For every buffer size, any number of Sender goroutines (publishers / replays), every
     consumer behaviour and every schedule: at most ONE copy is in flight (handed to the output
@@ -55,3 +56,20 @@ Theorem C05_blocking_publish_waits : forall pers ls t p,
   Reg.thr s t = PDone true -> In p (pmsgs s t) -> mem p (acked s) = true \/ gclosing s = true.
 Proof. exact blocking_waits. Qed.
 Print Assumptions C05_blocking_publish_waits.
+
+(** The executable acceptor that judges implementation histories ([Monitor.mon_one_in_flight], "a
+    message was received while an earlier one of that subscription is unsettled") accepts EVERY
+    behaviour of the repaired model: for every subscription id, buffer size and schedule the API
+    trace the model emits is accepted ... *)
+Theorem C05_one_in_flight_acceptor_sound : forall x cap0 ls,
+  Monitor.mon_one_in_flight (MonitorSound.trace x (sinit cap0 true) ls) = [].
+Proof. exact MonitorSound.one_in_flight_sound. Qed.
+Print Assumptions C05_one_in_flight_acceptor_sound.
+
+(** ... and on the pinned loop every verdict it can reach is the while-closing one (D13), never a
+    plain two-in-flight *)
+Theorem C05_one_in_flight_acceptor_verdicts : forall x cap0 fx ls iv,
+  In iv (Monitor.mon_one_in_flight (MonitorSound.trace x (sinit cap0 fx) ls)) ->
+  snd iv = Monitor.V_TWO_IN_FLIGHT_CLOSING /\ fx = false.
+Proof. exact MonitorSound.one_in_flight_verdicts. Qed.
+Print Assumptions C05_one_in_flight_acceptor_verdicts.
